@@ -29,6 +29,10 @@ with Rust's mutation expressed by shadowing, `for` loops as `List.foldlM` of a n
 the slice / `zipIdx`, `while` loops as named recursive helpers on fuel.  Loop helpers are named `<fn>_for<k>`,
 `<fn>_while<k>` (k-th loop of that kind in source order); temporaries `t<k>`.  Compound assignments are normalised
 (`x += e` and `x = x + e` give the same text).
+
+Units with `dialect="cf"` are handled by the subclasses of tools/rs2lean_cf.py (loops with break/continue/return as
+recursive helpers, by_ref iterators, VecDeque, Option, match, closures of fold/all/map, structs, opaque containers,
+condition holes); this file only chooses the classes (`translate_unit`) and the parser (`parser_class`).
 """
 import sys, os, re, argparse
 
@@ -323,9 +327,6 @@ class Parser:
 
     def stmt(self):
         x = self.peek()
-        r = bits_parse_stmt(self, x)          # (genbits) `{ … }` block statements, `match` statements
-        if r is not None:
-            return r
         if x.kind == "id" and x.text == "let":
             self.next()
             pat = self.pattern()
@@ -455,9 +456,8 @@ class Parser:
         a = []
         while not self.at(")"):
             if self.at("|") or self.at("||") or self.at("move"):
-                a.append(bits_parse_closure(self))      # (genbits) `|x| e` as the argument of `.map(..)`
-            else:
-                a.append(self.expr())
+                raise Unsupported("closure argument", self.peek().pos)
+            a.append(self.expr())
             if self.at(","):
                 self.next()
             elif not self.at(")"):
@@ -495,9 +495,6 @@ class Parser:
                 return e
 
     def primary(self, no_struct):
-        r = bits_parse_primary(self, no_struct)     # (genbits) `match` expressions, closures as call arguments
-        if r is not None:
-            return r
         x = self.next()
         if x.kind == "num":
             m = re.fullmatch(r"(.*?)(u8|u16|u32|u64|usize|i8|i16|i32|i64|isize)?", x.text)
@@ -633,8 +630,6 @@ def emit_code(code, ind, out):
 
 
 def emit_m(prefix, m, ind, out):
-    if m[0] in ("do", "match"):                # (genbits) nested `do` block / `match` on an Option
-        return bits_emit_m(prefix, m, ind, out)
     if m[0] in ("call", "pure"):
         out.append(prefix + (m[1] if m[0] == "call" else "pure " + atom(m[1])))
         return
@@ -736,9 +731,6 @@ class FnTranslator:
         return self.ty(t)
 
     def ty(self, t):
-        r = bits_ty(self, t)                   # (genbits) Option<T>, BTreeMap<K, V>
-        if r is not None:
-            return r
         if t.kind == "tref":
             return self.ty(t.inner)
         if t.kind == "tslice":
@@ -776,8 +768,6 @@ class FnTranslator:
         top_level = self.loop_depth == 0 and len(self.scopes) == 2
         for sc in self.scopes[:-1]:
             if name in sc and not nested_ok and not top_level:
-                if self.spec.get("shadow_ok"):      # (genbits) shadowing `let` inside a nested block: fresh Lean name
-                    return bits_declare_shadow(self, name, ty, mutable, ref_elem)
                 self.err("`%s` shadows a variable of an enclosing block (not translated)" % name, node)
         v = Var(name, self.fresh_lean(name), ty, mutable, ref_elem)
         self.scopes[-1][name] = v
@@ -816,8 +806,6 @@ class FnTranslator:
 
     def _assigned(self, n, decl, out):
         k = n.kind
-        if bits_assigned(self, n, decl, out):  # (genbits) block statements, `match`, `self.m(..)` calls, clear/resize/insert
-            return
         if k == "block":
             d = set(decl)
             for s in n.stmts:
@@ -872,7 +860,6 @@ class FnTranslator:
 
     def _reads(self, n, out):
         if isinstance(n, N):
-            bits_reads(self, n, out)           # (genbits) fields read by `self.m(..)` calls
             if n.kind == "var":
                 if n.name not in out:
                     out.append(n.name)
@@ -905,9 +892,6 @@ class FnTranslator:
     def expr(self, e, code, expected=None):
         """translate `e`, appending the needed binds to `code`; returns (pure lean text, type)"""
         k = e.kind
-        r = bits_expr(self, e, code, expected)  # (genbits) Option, self calls, typed struct literals, block-`if`, `match`
-        if r is not None:
-            return r
         if k == "paren":
             return self.expr(e.e, code, expected)
         if k == "lit":
@@ -1215,8 +1199,6 @@ class FnTranslator:
 
     def stmt(self, s, code, last):
         k = s.kind
-        if k in ("blocks", "matchs"):           # (genbits)
-            return bits_stmt(self, s, code)
         if k == "let":
             return self.let(s, code)
         if k == "assign":
@@ -1241,8 +1223,6 @@ class FnTranslator:
         return None
 
     def let(self, s, code):
-        if bits_let(self, s, code):             # (genbits) `let (a, b) = <call returning a tuple>;`
-            return
         if s.pat.kind == "ptuple":
             if s.init.kind == "paren":
                 s.init = s.init.e
@@ -1326,8 +1306,6 @@ class FnTranslator:
         self.err("assignment target", s)
 
     def expr_stmt(self, e, code):
-        if bits_expr_stmt(self, e, code):       # (genbits) `self.m(..);`, `v.clear();`, `v.resize(n, x);`, `m.insert(k, v);`
-            return
         if e.kind == "macro" and e.name in ("assert", "debug_assert") and len(e.args) >= 1:
             c, t = self.expr(e.args[0], code, TBool())
             if not isinstance(t, TBool):
@@ -1427,8 +1405,6 @@ class FnTranslator:
         for f in self.absfns.values():
             if f["lean"] == lean:
                 tys = [self.ty_of_text(a).lean() for a in f["args"]] + [self.ty_of_text(f["ret"]).lean()]
-                if f.get("monadic"):           # (genbits) an abstract function that may panic
-                    tys[-1] = "Res " + paren_ty(tys[-1])
                 return " → ".join(paren_ty(t) if "→" in t else t for t in tys)
         raise KeyError(lean)
 
@@ -1496,7 +1472,6 @@ class FnTranslator:
         it, rev = s.iter, False
         while it.kind == "paren":
             it = it.e
-        it, bits_wrap = bits_iter_adaptors(self, it, code)      # (genbits) `.step_by(k)`, `.take(n)`
         if it.kind == "mcall" and it.name == "rev" and not it.args:
             rev, it = True, it.recv
             while it.kind == "paren":
@@ -1578,7 +1553,6 @@ class FnTranslator:
                 lst = "%s.reverse" % atom(lst)
         if rev and it.kind == "range":
             lst = "(%s).reverse" % lst
-        lst = bits_wrap(lst)
         # --- state and captured variables
         loop_names = [lv[0] for lv in loopvars]
         assigned = self.assigned(N("for", s.pos, pat=s.pat, iter=s.iter, body=s.body))
@@ -1600,7 +1574,7 @@ class FnTranslator:
         lvs = []
         for nm, t, ref in loopvars:
             for sc in saved_scopes:
-                if nm in sc and nm != "_" and not self.spec.get("loop_shadow_ok"):
+                if nm in sc and nm != "_":
                     self.err("loop variable `%s` shadows a variable of an enclosing block (not translated)" % nm, s)
             lvs.append(self.declare(nm, t, s, mutable=False, ref_elem=ref, nested_ok=True))
         self.loop_depth += 1
@@ -1634,7 +1608,7 @@ class FnTranslator:
 
     # ---------------------------------------------------------------- the function
     def translate(self, toks):
-        p = Parser(toks)
+        p = getattr(self, "parser_class", Parser)(toks)     # dialect "cf": tools/rs2lean_cf.py
         body = p.body()
         sp = self.spec
         params = []      # Var
@@ -1703,7 +1677,6 @@ class FnTranslator:
 
     def finish(self, e, code, where):
         ret, ret_fields = self.ret, self.ret_fields
-        e = bits_finish_tail(self, e, code)     # (genbits) a unit-typed `match` in tail position is a statement
         outs, out_tys = [self.lookup(v.rust, where).lean for v in ret_fields], [v.ty for v in ret_fields]
         if e is not None:
             if isinstance(ret, TUnit):
@@ -1765,938 +1738,6 @@ def lean_name(rust):
     return nm
 
 
-# ================================================================================================== genbits extensions
-# (session 4, builder genbits: bit-packed containers C17/C18).  Additional constructs, hooked into the classes above
-# through the `bits_*` calls: `Option<T>` (`None`, `Some(e)`), `BTreeMap<K, V>` (association list, `Rs.mapInsert/mapGet`),
-# calls of other methods of the same `impl` (`self.m(..)`; spec `self_calls`: which fields the callee takes and which it
-# returns), `let (a, b) = <call>;`, block statements `{ … }` (own `do` block), `if` expressions whose branches are blocks
-# with statements, `match` on an `Option` (patterns `Some(x)`, `None`, `_`, guards; statement or value), struct literals
-# with field types from the spec (`struct_field_types`), `v.clear()`, `v.resize(n, x)`, `m.insert(k, v)`,
-# `m.get(&k).cloned()`, loop sources `(a..b).step_by(k).take(n)`, comparisons on generic types through abstract
-# functions (`ops`), `x.count_ones()`, `cmp::min`, `x.saturating_sub(y)`, `o.unwrap()`, `o.map(|x| e)`.
-
-class TOpt(Ty):
-    def __init__(self, elem):
-        self.elem = elem
-
-    def lean(self):
-        return "Option " + paren_ty(self.elem.lean())
-
-    def __eq__(self, o):
-        return isinstance(o, TOpt) and o.elem == self.elem
-
-    def __repr__(self):
-        return "Option<%r>" % (self.elem,)
-
-
-class TMap(Ty):
-    def __init__(self, k, v):
-        self.k, self.v = k, v
-
-    def lean(self):
-        return "List (%s × %s)" % (self.k.lean(), self.v.lean())
-
-    def __eq__(self, o):
-        return isinstance(o, TMap) and o.k == self.k and o.v == self.v
-
-    def __repr__(self):
-        return "BTreeMap<%r, %r>" % (self.k, self.v)
-
-
-def bits_ty(tr, t):
-    if t.kind == "tname":
-        if t.name in tr.generics and t.args and t.name in tr.unit.get("abstract_types", []):
-            return TAbs(t.name, tr.generics[t.name])      # `BitVec<u8>`: an abstract type whatever its arguments
-        if t.name == "Option" and len(t.args) == 1:
-            return TOpt(tr.ty(t.args[0]))
-        if t.name == "BTreeMap" and len(t.args) == 2:
-            return TMap(tr.ty(t.args[0]), tr.ty(t.args[1]))
-    return None
-
-
-def bits_self_calls(tr):
-    d = dict(tr.unit.get("self_calls", {}))
-    d.update(tr.spec.get("self_calls", {}))
-    return d
-
-
-def bits_is_self_call(tr, e):
-    return (e.kind == "mcall" and e.recv.kind == "var" and e.recv.name == "self" and e.name in bits_self_calls(tr))
-
-
-def bits_walk(n, f):
-    if isinstance(n, N):
-        f(n)
-        for k, v in n.__dict__.items():
-            if k not in ("kind", "pos"):
-                bits_walk(v, f)
-    elif isinstance(n, (list, tuple)):
-        for x in n:
-            bits_walk(x, f)
-
-
-# ---------------------------------------------------------------- parsing
-
-def bits_parse_stmt(p, x):
-    if x.kind == "op" and x.text == "{":
-        b = p.block()
-        if p.at(";"):
-            p.next()
-        return N("blocks", x.pos, b=b)
-    if x.kind == "id" and x.text == "match":
-        m = bits_parse_match(p)
-        if p.at(";"):
-            p.next()
-            return N("matchs", x.pos, e=m)
-        if p.at("}") or p.peek().kind == "eof":
-            return N("tail", x.pos, e=m)
-        return N("matchs", x.pos, e=m)
-    return None
-
-
-def bits_parse_primary(p, no_struct):
-    x = p.peek()
-    if x.kind == "op" and x.text == "(":
-        r = bits_parse_ceil8(p)
-        if r is not None:
-            return r
-    if x.kind == "id" and x.text == "match":
-        return bits_parse_match(p)
-    if x.kind == "id" and x.text == "size_of" and p.at("::", 1) and p.at("<", 2) and p.peek(3).kind == "id" \
-            and p.at(">", 4) and p.at("(", 5) and p.at(")", 6):
-        # `size_of::<T>()`: a named abstract constant (`size_of::<T>` must be declared in the spec)
-        for _ in range(3):
-            p.next()
-        t = p.next().text
-        for _ in range(3):
-            p.next()
-        return N("call", x.pos, path=["size_of::<%s>" % t], args=[])
-    return None
-
-
-def bits_parse_pat(p):
-    x = p.peek()
-    if x.kind == "op" and x.text == "&":
-        p.next()
-        return bits_parse_pat(p)
-    if x.kind == "id" and x.text not in ("mut", "ref", "box"):
-        path = [p.next().text]
-        while p.at("::"):
-            p.next()
-            path.append(p.ident().text)
-        if p.at("("):
-            p.next()
-            args = []
-            while not p.at(")"):
-                args.append(bits_parse_pat(p))
-                if p.at(","):
-                    p.next()
-                elif not p.at(")"):
-                    raise Unsupported("pattern", p.peek().pos)
-            p.expect(")")
-            return N("pctor", x.pos, name="::".join(path), args=args)
-        if len(path) > 1 or path[0] == "None":
-            return N("pctor", x.pos, name="::".join(path), args=[])
-        if p.at("{") or p.at("@"):
-            raise Unsupported("pattern `%s …`" % x.text, x.pos)
-        return N("pid", x.pos, name=path[0], mut=False)
-    return p.pattern()
-
-
-def bits_parse_match(p):
-    x = p.expect("match")
-    scrut = p.expr(no_struct=True)
-    p.expect("{")
-    arms = []
-    while not p.at("}"):
-        if p.peek().kind == "eof":
-            raise Unsupported("unbalanced `match`", x.pos)
-        pats = [bits_parse_pat(p)]
-        while p.at("|"):
-            p.next()
-            pats.append(bits_parse_pat(p))
-        guard = None
-        if p.at("if"):
-            p.next()
-            guard = p.expr(no_struct=True)
-        p.expect("=>")
-        if p.at("{"):
-            body = p.block()
-            if p.at(","):
-                p.next()
-        else:
-            y = p.peek()
-            e = p.expr()
-            if p.peek().kind == "op" and p.peek().text in ASSIGN_OPS:
-                op = p.next()
-                r = p.expr()
-                body = N("block", y.pos, stmts=[N("assign", y.pos, lhs=e, op=ASSIGN_OPS[op.text], rhs=r)], tail=None)
-            else:
-                body = N("block", y.pos, stmts=[], tail=e)
-            if p.at(","):
-                p.next()
-            elif not p.at("}"):
-                raise Unsupported("`match` arm", p.peek().pos)
-        arms.append(N("arm", pats[0].pos, pats=pats, guard=guard, body=body))
-    p.expect("}")
-    return N("match", x.pos, scrut=scrut, arms=arms)
-
-
-# ---------------------------------------------------------------- emission
-
-def bits_emit_m(prefix, m, ind, out):
-    if m[0] == "do":
-        out.append(prefix + "do")
-        emit_code(m[1], ind + 4, out)
-        return
-    _, scrut, alts = m
-    out.append("%smatch %s with" % (prefix, scrut))
-    for pat, c in alts:
-        out.append(" " * (ind + 2) + "| %s => do" % pat)
-        emit_code(c, ind + 6, out)
-
-
-# ---------------------------------------------------------------- variable analysis
-
-BITS_MUT_METHODS = ("clear", "resize", "insert", "remove")
-
-
-def bits_assigned(tr, n, decl, out):
-    k = n.kind
-    if k == "blocks":
-        tr._assigned(n.b, decl, out)
-        return True
-    if k in ("matchs",):
-        tr._assigned(n.e, decl, out)
-        return True
-    if k == "match":
-        bits_scan_self_calls(tr, n.scrut, decl, out)
-        for a in n.arms:
-            d = set(decl)
-            for pt in a.pats:
-                d |= set(bits_pat_names(pt))
-            tr._assigned(a.body, d, out)
-        return True
-    if k in ("let", "assign", "exprs", "ifs", "while", "for", "return"):
-        # calls of `&mut self` methods anywhere in the statement's own expressions
-        if k == "let":
-            bits_scan_self_calls(tr, n.init, decl, out)
-        elif k == "assign":
-            bits_scan_self_calls(tr, n.rhs, decl, out)
-        elif k == "exprs":
-            bits_scan_self_calls(tr, n.e, decl, out)
-            e = n.e
-            if e.kind == "mcall" and e.name in BITS_MUT_METHODS and not bits_is_self_call(tr, e):
-                r = tr._lhs_root(e.recv)
-                if r not in decl and r not in out:
-                    out.append(r)
-                return True
-        elif k == "ifs":
-            bits_scan_self_calls(tr, n.e.cond, decl, out)
-        elif k == "return" and n.e is not None:
-            bits_scan_self_calls(tr, n.e, decl, out)
-    if k == "if":
-        bits_scan_self_calls(tr, n.cond, decl, out)
-    return False
-
-
-def bits_scan_self_calls(tr, e, decl, out):
-    sc = bits_self_calls(tr)
-
-    def f(x):
-        if x.kind in ("block", "if", "match"):
-            return
-        if bits_is_self_call(tr, x):
-            for m in sc[x.name].get("muts", []):
-                r = "self." + m
-                if r not in decl and r not in out:
-                    out.append(r)
-    # only the expression itself, not nested statement blocks (they are visited by `_assigned`)
-    def walk(x):
-        if isinstance(x, N):
-            if x.kind in ("block",):
-                return
-            f(x)
-            for k, v in x.__dict__.items():
-                if k not in ("kind", "pos"):
-                    walk(v)
-        elif isinstance(x, (list, tuple)):
-            for y in x:
-                walk(y)
-    walk(e)
-
-
-def bits_pat_names(pt):
-    if pt.kind == "pid":
-        return [pt.name] if pt.name != "_" else []
-    if pt.kind == "pctor":
-        return [nm for a in pt.args for nm in bits_pat_names(a)]
-    if pt.kind == "ptuple":
-        return [nm for a in pt.items for nm in bits_pat_names(a)]
-    return []
-
-
-def bits_reads(tr, n, out):
-    if bits_is_self_call(tr, n):
-        f = bits_self_calls(tr)[n.name]
-        for fld in list(f.get("fields", [])) + list(f.get("muts", [])):
-            nm = "self." + fld
-            if nm not in out:
-                out.append(nm)
-
-
-# ---------------------------------------------------------------- expressions
-
-def bits_declared(tr, name):
-    return any(name in sc for sc in tr.scopes)
-
-
-def bits_self_call(tr, e, code):
-    """`self.m(args)`: returns (lean text of the returned value or None, type or None)"""
-    f = bits_self_calls(tr)[e.name]
-    if len(f["args"]) != len(e.args):
-        tr.err("`self.%s` called with %d arguments, the spec says %d" % (e.name, len(e.args), len(f["args"])), e)
-    parts = [tr.lookup("self." + fld, e).lean for fld in f.get("fields", [])]
-    for a, at in zip(e.args, f["args"]):
-        want = tr.ty_of_text(at)
-        s, t = tr.expr(a, code, want)
-        if t != want:
-            tr.err("argument of `self.%s` has type %r, the spec says %r" % (e.name, t, want), a)
-        parts.append(atom(s))
-    outs = [tr.lookup("self." + m, e).lean for m in f.get("muts", [])]
-    ret = tr.ty_of_text(f["ret"]) if f.get("ret") else None
-    absf = tr.abs_args() if f.get("abs") else ""
-    call = f["lean"] + absf + "".join(" " + p for p in parts)
-    if ret is None:
-        code.bind(tuple_pat(outs), ("call", call))
-        return None, None
-    t = tr.tmp()
-    code.bind(tuple_pat(outs + [t]), ("call", call))
-    return t, ret
-
-
-def bits_expr(tr, e, code, expected):
-    k = e.kind
-    r = bits_expr2(tr, e, code, expected)
-    if r is not None:
-        return r
-    if k == "var" and e.name == "None" and not bits_declared(tr, "None"):
-        if not isinstance(expected, TOpt):
-            tr.err("the type of `None` cannot be read off the text", e)
-        return "none", expected
-    if k == "call" and e.path == ["Some"] and len(e.args) == 1:
-        s, t = tr.expr(e.args[0], code, expected.elem if isinstance(expected, TOpt) else None)
-        return "some %s" % atom(s), TOpt(t)
-    if bits_is_self_call(tr, e):
-        s, t = bits_self_call(tr, e, code)
-        if t is None:
-            tr.err("`self.%s(..)` returns no value" % e.name, e)
-        return s, t
-    if k == "struct" and e.name in tr.spec.get("struct_field_types", {}):
-        want = tr.spec.get("struct_fields", {}).get(e.name)
-        names = [f for f, _ in e.fields]
-        if want is None or sorted(names) != sorted(want):
-            tr.err("struct literal `%s` has fields %s, the spec (and the theorems) expect %s"
-                   % (e.name, ",".join(names), ",".join(want or [])), e)
-        tys = tr.spec["struct_field_types"][e.name]
-        vals = {}
-        for fn_, x in e.fields:                       # evaluated in source order, returned in spec order
-            wt = tr.ty_of_text(tys[fn_])
-            s, t = tr.expr(x, code, wt)
-            if t != wt:
-                tr.err("field `%s` of `%s` has type %r, the spec says %r" % (fn_, e.name, t, wt), x)
-            if not re.fullmatch(r"[\w.']+|\[\]", s):
-                tv = tr.tmp()
-                code.let(tv, s)
-                s = tv
-            vals[fn_] = (s, t)
-        return "(" + ", ".join(vals[f][0] for f in want) + ")", TTuple([vals[f][1] for f in want])
-    if k == "if" and e.els is not None and (e.then.stmts or e.els.stmts or
-                                            (e.els.tail is not None and e.els.tail.kind == "if" and bits_if_has_stmts(e.els.tail))):
-        return bits_if_expr(tr, e, code, expected)
-    if k == "match":
-        return bits_match(tr, e, code, expected, value=True)
-    if k == "mcall":
-        return bits_mcall(tr, e, code, expected)
-    if k == "call":
-        return bits_call(tr, e, code, expected)
-    if k == "bin" and e.op in ("==", "!=", "<", ">", "<=", ">=") and tr.spec.get("ops") or \
-            k == "bin" and e.op in ("==", "!=", "<", ">", "<=", ">=") and tr.unit.get("ops"):
-        return bits_abs_cmp(tr, e, code)
-    return None
-
-
-def bits_if_has_stmts(e):
-    if e.then.stmts or (e.els is not None and e.els.stmts):
-        return True
-    if e.els is not None and e.els.tail is not None and e.els.tail.kind == "if":
-        return bits_if_has_stmts(e.els.tail)
-    return False
-
-
-def bits_if_expr(tr, e, code, expected):
-    """`if c { stmts; e1 } else { stmts; e2 }` as a value (no outer variable may be assigned in the branches)"""
-    if tr.assigned(e.then) or tr.assigned(e.els):
-        tr.err("`if` expression whose branches assign outer variables", e)
-    c, ct = tr.expr(e.cond, code, TBool())
-    if not isinstance(ct, TBool):
-        tr.err("condition of type %r" % (ct,), e.cond)
-    saved = tr.tail_expected
-    tr.tail_expected = expected
-    subs, tys = [], []
-    try:
-        for b in (e.then, e.els):
-            sub = Code()
-            r = tr.block(b, sub, False)
-            if r is None:
-                tr.err("`if` expression with a branch without value", b)
-            sub.final = ("pure", r[0])
-            subs.append(sub)
-            tys.append(r[1])
-    finally:
-        tr.tail_expected = saved
-    if tys[0] != tys[1]:
-        tr.err("`if` expression with branches of type %r and %r" % (tys[0], tys[1]), e)
-    t = tr.tmp()
-    code.bind(t, ("if", c, subs[0], subs[1]))
-    return t, tys[0]
-
-
-def bits_abs_cmp(tr, e, code):
-    """comparison of values of a generic type through the abstract functions the spec declares (`ops`)"""
-    ops = dict(tr.unit.get("ops", {}))
-    ops.update(tr.spec.get("ops", {}))
-    probe = Code()
-    n0 = tr.n_tmp
-    try:
-        _, lt = tr.expr(e.l, probe, None)
-    except Unsupported:
-        tr.n_tmp = n0
-        return None
-    tr.n_tmp = n0
-    if not isinstance(lt, TAbs):
-        return None
-    l, lt = tr.expr(e.l, code, None)
-    r, rt = tr.expr(e.r, code, lt)
-    if rt != lt:
-        tr.err("comparison of %r with %r" % (lt, rt), e)
-    key = "%s:%s" % (e.op, lt.name)
-    if key not in ops:
-        tr.err("`%s` on the generic type %r (no abstract operation declared in the spec)" % (e.op, lt), e)
-    f = ops[key]
-    neg = False
-    if f.startswith("not:"):
-        f, neg = f[4:], True
-    if f.startswith("flip:"):
-        f, l, r = f[5:], r, l
-    if f not in tr.used_abs:
-        tr.used_abs.append(f)
-    if neg:
-        return "!(%s %s %s)" % (f, atom(l), atom(r)), TBool()
-    return "%s %s %s" % (f, atom(l), atom(r)), TBool()
-
-
-def bits_mcall(tr, e, code, expected):
-    nm = e.name
-    if nm == "cloned" and not e.args:
-        return tr.expr(e.recv, code, expected)
-    if nm == "get" and len(e.args) == 1:
-        probe = Code()
-        n0 = tr.n_tmp
-        try:
-            _, mt = tr.expr(e.recv, probe, None)
-        except Unsupported:
-            mt = None
-        tr.n_tmp = n0
-        if isinstance(mt, TMap):
-            m, _ = tr.expr(e.recv, code, None)
-            kx, kt = tr.expr(e.args[0], code, mt.k)
-            if kt != mt.k:
-                tr.err("map key of type %r (%r expected)" % (kt, mt.k), e)
-            return "Rs.mapGet %s %s" % (atom(m), atom(kx)), TOpt(mt.v)
-        return None
-    if nm in ("count_ones", "count_zeros") and not e.args:
-        s, t = tr.expr(e.recv, code, None)
-        if not isinstance(t, TInt) or t.signed:
-            tr.err("`.%s()` on %r" % (nm, t), e)
-        if nm == "count_ones":
-            return "Rs.countOnes %s" % atom(s), TInt("u32")
-        return "Rs.countZeros %d %s" % (t.w, atom(s)), TInt("u32")
-    if nm == "saturating_sub" and len(e.args) == 1:
-        l, lt = tr.expr(e.recv, code, expected)
-        r, rt = tr.expr(e.args[0], code, lt)
-        if lt != rt or not isinstance(lt, TInt) or lt.signed:
-            tr.err("`saturating_sub` on %r and %r" % (lt, rt), e)
-        return "%s - %s" % (atom(l), atom(r)), lt
-    if nm == "min" and len(e.args) == 1:
-        l, lt = tr.expr(e.recv, code, expected)
-        r, rt = tr.expr(e.args[0], code, lt)
-        if lt != rt or not isinstance(lt, TInt) or lt.signed:
-            tr.err("`min` on %r and %r" % (lt, rt), e)
-        return "min %s %s" % (atom(l), atom(r)), lt
-    if nm == "unwrap" and not e.args:
-        s, t = tr.expr(e.recv, code, TOpt(expected) if expected is not None else None)
-        if not isinstance(t, TOpt):
-            tr.err("`.unwrap()` on %r" % (t,), e)
-        r = tr.tmp()
-        code.bind(r, ("call", "Rs.unwrap %s" % atom(s)))
-        return r, t.elem
-    return None
-
-
-def bits_call(tr, e, code, expected):
-    path = "::".join(e.path)
-    alias = dict(tr.unit.get("abs_alias", {}))
-    alias.update(tr.spec.get("abs_alias", {}))
-    if path in alias and not getattr(e, "aliased", False):
-        # a polymorphic function (`cast`) whose instance is fixed per translated function by the spec
-        return tr.call(N("call", e.pos, path=alias[path].split("::"), args=e.args, aliased=True), code, expected)
-    if path in ("cmp::min", "std::cmp::min", "min") and len(e.args) == 2 and path not in tr.absfns:
-        l, lt = tr.expr(e.args[0], code, expected)
-        r, rt = tr.expr(e.args[1], code, lt)
-        if lt != rt or not isinstance(lt, TInt) or lt.signed:
-            tr.err("`min` on %r and %r" % (lt, rt), e)
-        return "min %s %s" % (atom(l), atom(r)), lt
-    if e.path == ["BTreeMap", "new"] and not e.args:
-        if not isinstance(expected, TMap):
-            tr.err("`BTreeMap::new()` without a declared type", e)
-        return "[]", expected
-    return None
-
-
-# ---------------------------------------------------------------- statements
-
-def bits_stmt(tr, s, code):
-    if s.kind == "blocks":
-        vs = tr.outer_vars(tr.assigned(s.b), s)
-        saved_tail = tr.tail_expected
-        tr.tail_expected = None
-        sub = Code()
-        try:
-            tr.block(tr.unit_block(s.b), sub, False)
-        finally:
-            tr.tail_expected = saved_tail
-        sub.final = ("pure", tuple_val([v.lean for v in vs]))
-        code.bind(tuple_pat([v.lean for v in vs]), ("do", sub))
-        return
-    if s.kind == "matchs":
-        bits_match(tr, s.e, code, None, value=False)
-        return
-    tr.err("statement `%s`" % s.kind, s)
-
-
-def bits_let(tr, s, code):
-    if s.pat.kind != "ptuple":
-        return False
-    init = s.init
-    while init.kind == "paren":
-        init = init.e
-    if init.kind == "tuple":
-        return False
-    if s.ty is not None:
-        tr.err("tuple `let` with a type annotation", s)
-    val, t = tr.expr(init, code, None)
-    if not isinstance(t, TTuple) or len(t.items) != len(s.pat.items):
-        tr.err("tuple `let` whose right-hand side has type %r" % (t,), s)
-    names = []
-    for p, ty in zip(s.pat.items, t.items):
-        if p.kind != "pid":
-            tr.err("nested tuple pattern", p)
-        v = tr.declare(p.name, ty, s, mutable=p.mut)
-        names.append(v.lean)
-    code.let(tuple_pat(names), val)
-    return True
-
-
-def bits_expr_stmt(tr, e, code):
-    if bits_is_self_call(tr, e):
-        bits_self_call(tr, e, code)
-        return True
-    if e.kind == "mcall" and e.name in BITS_MUT_METHODS:
-        try:
-            root = tr._lhs_root(e.recv)
-        except Unsupported:
-            return False
-        v = tr.lookup(root, e)
-        if e.name == "clear" and not e.args and isinstance(v.ty, (TSeq, TMap)):
-            code.let(v.lean, "[]")
-            return True
-        if e.name == "resize" and len(e.args) == 2 and isinstance(v.ty, TSeq):
-            n, nt = tr.expr(e.args[0], code, TInt("usize"))
-            x, xt = tr.expr(e.args[1], code, v.ty.elem)
-            if nt != TInt("usize") or xt != v.ty.elem:
-                tr.err("`.resize(%r, %r)` on %r" % (nt, xt, v.ty), e)
-            code.let(v.lean, "Rs.resize %s %s %s" % (atom(v.lean), atom(n), atom(x)))
-            return True
-        if e.name == "insert" and len(e.args) == 2 and isinstance(v.ty, TMap):
-            kx, kt = tr.expr(e.args[0], code, v.ty.k)
-            x, xt = tr.expr(e.args[1], code, v.ty.v)
-            if kt != v.ty.k or xt != v.ty.v:
-                tr.err("`.insert(%r, %r)` on %r" % (kt, xt, v.ty), e)
-            code.let(v.lean, "Rs.mapInsert %s %s %s" % (atom(v.lean), atom(kx), atom(x)))
-            return True
-    return False
-
-
-def bits_finish_tail(tr, e, code):
-    if e is not None and isinstance(tr.ret, TUnit) and e.kind == "match":
-        bits_match(tr, e, code, None, value=False)
-        return None
-    if e is not None and isinstance(tr.ret, TUnit) and e.kind == "if":
-        tr.if_stmt(e, code)
-        return None
-    return e
-
-
-def bits_iter_adaptors(tr, it, code):
-    wraps = []
-    while True:
-        while it.kind == "paren":
-            it = it.e
-        if it.kind == "mcall" and it.name == "take" and len(it.args) == 1:
-            n, nt = tr.expr(it.args[0], code, TInt("usize"))
-            if nt != TInt("usize"):
-                tr.err("`.take(%r)`" % (nt,), it)
-            wraps.append(("take", n))
-            it = it.recv
-            continue
-        if it.kind == "mcall" and it.name == "step_by" and len(it.args) == 1:
-            k, kt = tr.expr(it.args[0], code, TInt("usize"))
-            if kt != TInt("usize"):
-                tr.err("`.step_by(%r)`" % (kt,), it)
-            wraps.append(("step_by", k))
-            it = it.recv
-            continue
-        break
-
-    def wrap(lst):
-        for kind, a in reversed(wraps):
-            if kind == "take":
-                lst = "%s.take %s" % (atom(lst), atom(a))
-            else:
-                t = tr.tmp()
-                code.bind(t, ("call", "Rs.stepByIdx %s %s" % (atom(lst), atom(a))))
-                lst = t
-        return lst
-    return it, wrap
-
-
-# ---------------------------------------------------------------- match on an Option
-
-def bits_match(tr, e, code, expected, value):
-    """`match scrut { Some(x) [if g] => a, … , None | _ => b }` on an `Option`.  Statement (`value=False`): the arms may
-    assign outer variables, which are returned as a tuple; value: the arms' values.  A guarded `Some` arm falls through
-    to the later arms: the default arm is translated once per place it is reached from."""
-    sc, st = tr.expr(e.scrut, code, None)
-    if not isinstance(st, TOpt):
-        tr.err("`match` on a value of type %r (only `Option` is translated)" % (st,), e)
-    vs = [] if value else tr.outer_vars(tr.assigned(e), e)
-    for a in e.arms:
-        if len(a.pats) != 1:
-            tr.err("`|` patterns in a `match` on an `Option`", a)
-    binder = [None]
-
-    def arm_code(a, bind_var):
-        """translate the body of arm `a` (with the `Some` payload bound to lean name `bind_var` if the pattern binds)"""
-        sub = Code()
-        tr.scopes.append({})
-        saved_tail = tr.tail_expected
-        tr.tail_expected = expected if value else None
-        try:
-            pt = a.pats[0]
-            if pt.kind == "pctor" and pt.name == "Some":
-                inner = pt.args[0]
-                if inner.kind == "pid" and inner.name != "_":
-                    tr.scopes[-1][inner.name] = Var(inner.name, bind_var, st.elem, False)
-                elif inner.kind != "pid":
-                    tr.err("nested pattern inside `Some(..)`", pt)
-            body = a.body
-            if value:
-                r = tr.block(body, sub, False)
-                if r is None:
-                    tr.err("`match` arm without value", a)
-                sub.final = ("pure", r[0])
-                return sub, r[1]
-            if body.tail is not None:
-                # a unit-typed expression as arm body: a statement
-                stmts = list(body.stmts)
-                if body.tail.kind == "if":
-                    stmts.append(N("ifs", body.tail.pos, e=body.tail))
-                elif body.tail.kind == "match":
-                    stmts.append(N("matchs", body.tail.pos, e=body.tail))
-                else:
-                    stmts.append(N("exprs", body.tail.pos, e=body.tail))
-                body = N("block", body.pos, stmts=stmts, tail=None)
-            tr.block(body, sub, False)
-            sub.final = ("pure", tuple_val([v.lean for v in vs]))
-            return sub, None
-        finally:
-            tr.tail_expected = saved_tail
-            tr.scopes.pop()
-
-    def guard_of(a, bind_var, sub):
-        tr.scopes.append({})
-        try:
-            pt = a.pats[0]
-            if pt.kind == "pctor" and pt.name == "Some" and pt.args[0].kind == "pid" and pt.args[0].name != "_":
-                tr.scopes[-1][pt.args[0].name] = Var(pt.args[0].name, bind_var, st.elem, False)
-            g, gt = tr.expr(a.guard, sub, TBool())
-            if not isinstance(gt, TBool):
-                tr.err("guard of type %r" % (gt,), a.guard)
-            return g
-        finally:
-            tr.scopes.pop()
-
-    def is_some(a):
-        return a.pats[0].kind == "pctor" and a.pats[0].name == "Some" and len(a.pats[0].args) == 1
-
-    def is_none(a):
-        return a.pats[0].kind == "pctor" and a.pats[0].name == "None"
-
-    def is_wild(a):
-        return a.pats[0].kind == "pid"          # `_` or a catch-all name (a name would bind the Option: refused below)
-
-    for a in e.arms:
-        if not (is_some(a) or is_none(a) or is_wild(a)):
-            tr.err("pattern in a `match` on an `Option` (only `Some(x)`, `None`, `_`)", a)
-        if is_wild(a) and a.pats[0].name != "_":
-            tr.err("catch-all pattern that binds a name", a)
-        if (is_none(a) or is_wild(a)) and a.guard is not None:
-            tr.err("guard on a `None` / `_` arm", a)
-    # the binder's lean name: fresh against everything live (the default arm may mention the shadowed outer variable)
-    live = set(v.lean for scp in tr.scopes for v in scp.values())
-    bname = "x"
-    for a in e.arms:
-        if is_some(a) and a.pats[0].args[0].kind == "pid" and a.pats[0].args[0].name != "_":
-            bname = lean_name(a.pats[0].args[0].name)
-            break
-    while bname in live:
-        bname += "'"
-    types = []
-
-    def chain(arms):
-        """code for the payload case `some bname`, trying `arms` in order"""
-        for idx, a in enumerate(arms):
-            if is_none(a):
-                continue
-            if is_some(a) and a.guard is not None:
-                c = Code()
-                g = guard_of(a, bname, c)
-                th, ty = arm_code(a, bname)
-                types.append(ty)
-                el = chain(arms[idx + 1:])
-                c.final = ("if", g, th, el)
-                return c
-            sub, ty = arm_code(a, bname)
-            types.append(ty)
-            return sub
-        tr.err("`match` on an `Option` does not cover `Some(..)`", e)
-
-    def none_case(arms):
-        for a in arms:
-            if is_none(a) or is_wild(a):
-                sub, ty = arm_code(a, bname)
-                types.append(ty)
-                return sub
-        tr.err("`match` on an `Option` does not cover `None`", e)
-
-    some_code = chain(e.arms)
-    none_code = none_case(e.arms)
-    alts = [("some %s" % bname, some_code), ("none", none_code)]
-    if value:
-        tys = [t for t in types if t is not None]
-        for t in tys[1:]:
-            if t != tys[0]:
-                tr.err("`match` arms of type %r and %r" % (tys[0], t), e)
-        r = tr.tmp()
-        code.bind(r, ("match", sc, alts))
-        return r, tys[0]
-    code.bind(tuple_pat([v.lean for v in vs]), ("match", sc, alts))
-    return None
-
-
-# ---------------------------------------------------------------- genbits, part 2 (rank/select, wavelet matrix)
-
-def bits_declare_shadow(tr, name, ty, mutable, ref_elem):
-    """a `let` that shadows a variable of an enclosing block (spec `shadow_ok`): the new variable gets a Lean name that
-    no live variable uses, so the Lean text has no shadowing across blocks at all"""
-    lean = lean_name(name)
-    live = set(v.lean for sc in tr.scopes for v in sc.values())
-    while lean in live:
-        lean += "'"
-    v = Var(name, lean, ty, mutable, ref_elem)
-    tr.scopes[-1][name] = v
-    return v
-
-
-def bits_parse_closure(p):
-    x = p.peek()
-    if p.at("move"):
-        raise Unsupported("`move` closure", x.pos)
-    params = []
-    if p.at("||"):
-        p.next()
-    else:
-        p.expect("|")
-        while not p.at("|"):
-            if p.at("&"):
-                p.next()
-            params.append(p.ident().text)
-            if p.at(":"):
-                raise Unsupported("closure parameter with a type annotation", p.peek().pos)
-            if p.at(","):
-                p.next()
-        p.expect("|")
-    if p.at("{"):
-        raise Unsupported("closure with a block body", p.peek().pos)
-    body = p.expr()
-    return N("closure", x.pos, params=params, body=body)
-
-
-def bits_probe_type(tr, e):
-    """type of `e` without emitting code (None when it cannot be translated)"""
-    probe = Code()
-    n0 = tr.n_tmp
-    try:
-        _, t = tr.expr(e, probe, None)
-    except Unsupported:
-        t = None
-    tr.n_tmp = n0
-    return t
-
-
-def bits_abs_method(tr, e, code, expected):
-    """`recv.m(args)` where `recv` has an abstract type `X` and the spec declares the abstract function `X.m`
-    (first argument: the receiver).  `monadic=True`: the abstract function may panic (a `Res` value)."""
-    if e.recv.kind == "var" and not bits_declared(tr, e.recv.name):
-        return None
-    rt = bits_probe_type(tr, e.recv)
-    if not isinstance(rt, TAbs):
-        return None
-    key = "%s.%s" % (rt.name, e.name)
-    if key not in tr.absfns:
-        return None
-    f = tr.absfns[key]
-    if len(f["args"]) != len(e.args) + 1:
-        tr.err("`.%s` called with %d arguments, the spec says %d" % (e.name, len(e.args), len(f["args"]) - 1), e)
-    r, _ = tr.expr(e.recv, code, None)
-    parts = [atom(r)]
-    for a, at in zip(e.args, f["args"][1:]):
-        want = tr.ty_of_text(at)
-        s, t = tr.expr(a, code, want)
-        if t != want:
-            tr.err("argument of `.%s` has type %r, the spec says %r" % (e.name, t, want), a)
-        parts.append(atom(s))
-    ret = tr.ty_of_text(f["ret"])
-    if f.get("monadic"):
-        t = tr.tmp()
-        code.bind(t, ("call", f["lean"] + "".join(" " + x for x in parts)))
-        return t, ret
-    return f["lean"] + "".join(" " + x for x in parts), ret
-
-
-def bits_expr2(tr, e, code, expected):
-    k = e.kind
-    if k == "un" and e.op == "*":
-        t = bits_probe_type(tr, e.e)
-        if isinstance(t, TAbs) and ("deref:" + t.name) in tr.absfns:
-            f = tr.absfns["deref:" + t.name]
-            s, _ = tr.expr(e.e, code, None)
-            return "%s %s" % (f["lean"], atom(s)), tr.ty_of_text(f["ret"])
-        return None
-    if k == "mcall":
-        r = bits_abs_method(tr, e, code, expected)
-        if r is not None:
-            return r
-        if e.name == "map" and len(e.args) == 1 and e.args[0].kind == "closure" and len(e.args[0].params) == 1:
-            # `opt.map(|x| body)`
-            o, ot = tr.expr(e.recv, code, None)
-            if not isinstance(ot, TOpt):
-                tr.err("`.map(closure)` on %r (only `Option`)" % (ot,), e)
-            cl = e.args[0]
-            live = set(v.lean for sc in tr.scopes for v in sc.values())
-            bname = lean_name(cl.params[0])
-            while bname in live:
-                bname += "'"
-            sub = Code()
-            tr.scopes.append({cl.params[0]: Var(cl.params[0], bname, ot.elem, False)})
-            try:
-                b, bt = tr.expr(cl.body, sub, expected.elem if isinstance(expected, TOpt) else None)
-            finally:
-                tr.scopes.pop()
-            sub.final = ("pure", "some %s" % atom(b))
-            none = Code()
-            none.final = ("pure", "none")
-            t = tr.tmp()
-            code.bind(t, ("match", o, [("some %s" % bname, sub), ("none", none)]))
-            return t, TOpt(bt)
-        if e.name == "to_vec" and not e.args:
-            return tr.expr(e.recv, code, expected)
-        return None
-    if k == "call":
-        if e.path == ["Vec", "with_capacity"] and len(e.args) == 1:
-            # the capacity expression is evaluated (it may panic), the vector is empty
-            if not isinstance(expected, TSeq):
-                tr.err("`Vec::with_capacity(..)` without a declared element type", e)
-            c, ct = tr.expr(e.args[0], code, TInt("usize"))
-            if ct != TInt("usize"):
-                tr.err("capacity of type %r" % (ct,), e)
-            return "[]", expected
-        return None
-    if k == "bin" and e.op in ("==", "!="):
-        def optish(x):
-            while x.kind == "paren":
-                x = x.e
-            return (x.kind == "call" and x.path == ["Some"]) or (x.kind == "var" and x.name == "None") or \
-                isinstance(bits_probe_type(tr, x), TOpt)
-        if optish(e.l) or optish(e.r):
-            lt = bits_probe_type(tr, e.l)
-            rt = bits_probe_type(tr, e.r)
-            want = lt if isinstance(lt, TOpt) else rt
-            if not isinstance(want, TOpt):
-                tr.err("comparison of `Option` values whose type cannot be read off the text", e)
-            l, lt = tr.expr(e.l, code, want)
-            r, rt = tr.expr(e.r, code, want)
-            if lt != rt or not isinstance(lt.elem, (TInt, TBool)):
-                tr.err("`%s` on %r and %r" % (e.op, lt, rt), e)
-            return "%s %s %s" % (atom(l), e.op, atom(r)), TBool()
-        return None
-    if k == "var" and e.name in tr.spec.get("consts", tr.unit.get("consts", {})) and not bits_declared(tr, e.name):
-        # a `const` table of the file: a parameter of the translated function (extracted separately, Gen/Dna2Int.lean)
-        return lean_name(e.name), tr.ty_of_text(tr.spec.get("consts", tr.unit.get("consts", {}))[e.name])
-    return None
-
-
-def bits_parse_ceil8(p):
-    """`(<e> as f64 / 8.0).ceil() as usize` — floating point is outside the subset; this one idiom ("number of bytes
-    for <e> bits") is translated as the call of the abstract function `ceil_div8_f64` (contract: ⌈e / 8⌉ for e < 2^53,
-    where the f64 arithmetic is exact; docs/notes/GEN.md)"""
-    i0 = p.i
-    try:
-        if not p.at("("):
-            return None
-        p.next()
-        x = p.peek()
-        e = p.unary(False)
-        while p.at("as"):
-            p.next()
-            t = p.type_()
-            if t.kind == "tname" and t.name == "f64":
-                break
-            e = N("cast", x.pos, e=e, ty=t)
-        else:
-            p.i = i0
-            return None
-        toks = [p.next() for _ in range(11)]
-        if [t.text for t in toks] != ["/", "8", ".", "0", ")", ".", "ceil", "(", ")", "as", "usize"]:
-            p.i = i0
-            return None
-        return N("call", x.pos, path=["ceil_div8_f64"], args=[e])
-    except Unsupported:
-        p.i = i0
-        return None
-
-
 # ================================================================================================== units (= generated files)
 
 def header_regex(header):
@@ -2717,9 +1758,16 @@ def translate_unit(src, unit, fail):
     anything outside the subset."""
     rel = unit["file"]
     out_fns, snippets = [], {}
+    src_all = src
     for f in unit["functions"]:
         what = "fn %s" % f["name"]
         rx = header_regex(f["header"])
+        if unit.get("dialect") == "cf":         # tools/rs2lean_cf.py: control flow, containers; spec key `after`
+            import rs2lean_cf
+            try:
+                src = rs2lean_cf.restrict(src_all, f)
+            except Unsupported as u:
+                fail("%s: %s: %s" % (rel, what, u.msg))
         ms = list(re.finditer(rx, src.code))
         if len(ms) != 1:
             fail("%s: %s: expected exactly one function with the header `%s`, found %d (signature changed, renamed or "
@@ -2729,7 +1777,10 @@ def translate_unit(src, unit, fail):
         snippets[f["name"]] = ms[0].group(0)[:-1].strip() + " {" + body + "}"
         try:
             toks = tokenize(body, start)
-            tr = FnTranslator(unit, f, src, body, start)
+            if unit.get("dialect") == "cf":
+                tr = rs2lean_cf.FnTranslatorX(unit, f, src, body, start)
+            else:
+                tr = FnTranslator(unit, f, src, body, start)
             helpers, main, ret_fields, tail = tr.translate(toks)
         except Unsupported as u:
             where = "%s:%d" % (rel, src.line_of(u.pos)) if u.pos is not None else "%s:%d" % (rel, line)
@@ -2737,7 +1788,7 @@ def translate_unit(src, unit, fail):
                  "longer be regenerated)" % (where, what, u.msg, f.get("theorem", "")))
         out_fns.append((f, line, body, helpers, main))
     name = unit["name"]
-    txt = ["import RbV.Basic.RsSem" + "".join("\nimport " + m for m in unit.get("imports", [])),
+    txt = ["import RbV.Basic.RsSem",
            "/-! GENERATED by tools/rs2lean.py (tools/gen_tables.py, %s) — do not edit." % unit["props"],
            "Translation of the *text* of the following functions of `%s` (comments blanked) into Lean, regenerated from" % rel,
            "the source tree on every `./check`.  Semantics of the operations: `RbV/Basic/RsSem.lean` (`Res.panic` = the Rust",
@@ -2832,18 +1883,7 @@ unit(name="SrcFenwick", props="property C18", file="src/data_structures/bit_tree
                      fuel=["tree.length + 1"], theorem="RbV.Thm.GenSrcFenwick.set_eq_model")])
 
 
-# (genbits) all fields of `struct BitEnc`, in declaration order
-BITENC_FIELDS = [("storage", "Vec<u32>"), ("width", "usize"), ("mask", "u32"), ("len", "usize"),
-                 ("usable_bits_per_block", "usize")]
-BITENC_FIELD_NAMES = [f for f, _ in BITENC_FIELDS]
-BITENC_SELF_CALLS = {
-    "addr": dict(lean="SrcBitEnc.addr", fields=["width", "usable_bits_per_block"], args=["usize"], ret="(usize, usize)"),
-    "get_by_addr": dict(lean="SrcBitEnc.getByAddr", fields=["storage", "mask"], args=["usize", "usize"], ret="u8"),
-    "set_by_addr": dict(lean="SrcBitEnc.setByAddr", fields=["storage", "mask"], args=["usize", "usize", "u8"],
-                        muts=["storage"], ret=None)}
-
 unit(name="SrcBitEnc", props="property C18", file="src/data_structures/bitenc.rs",
-     imports=["RbV.Basic.RsSemBits"], self_calls=BITENC_SELF_CALLS,
      functions=[dict(name="mask", lean="mask", header="fn mask(width: usize) -> u32",
                      params=[("width", "usize")], ret="u32", theorem="RbV.Thm.GenSrcBitEnc.mask_eq_model"),
                 dict(name="BitEnc::get_by_addr", lean="getByAddr",
@@ -2858,141 +1898,7 @@ unit(name="SrcBitEnc", props="property C18", file="src/data_structures/bitenc.rs
                      theorem="RbV.Thm.GenSrcBitEnc.setByAddr_eq_model"),
                 dict(name="BitEnc::addr", lean="addr", header="fn addr(&self, i: usize) -> (usize, usize)",
                      self_fields=[("width", "usize"), ("usable_bits_per_block", "usize")],
-                     params=[("i", "usize")], ret="(usize, usize)", theorem="RbV.Thm.GenSrcBitEnc.addr_eq_model"),
-                # (genbits) the constructor and the public operations; they call the four functions above
-                dict(name="BitEnc::new", lean="new", header="pub fn new(width: usize) -> Self",
-                     params=[("width", "usize")], ret="(Vec<u32>, usize, u32, usize, usize)",
-                     struct_fields={"BitEnc": BITENC_FIELD_NAMES}, struct_field_types={"BitEnc": dict(BITENC_FIELDS)},
-                     calls={"mask": dict(lean="SrcBitEnc.mask", args=["usize"], ret="u32")},
-                     theorem="RbV.Thm.GenSrcBitEncOps.new_eq_model"),
-                dict(name="BitEnc::push", lean="push", header="pub fn push(&mut self, value: u8)",
-                     self_fields=BITENC_FIELDS, params=[("value", "u8")], ret=None,
-                     theorem="RbV.Thm.GenSrcBitEncOps.push_eq_model"),
-                dict(name="BitEnc::set", lean="set", header="pub fn set(&mut self, i: usize, value: u8)",
-                     self_fields=BITENC_FIELDS, params=[("i", "usize"), ("value", "u8")], ret=None,
-                     theorem="RbV.Thm.GenSrcBitEncOps.set_eq_model"),
-                dict(name="BitEnc::get", lean="get", header="pub fn get(&self, i: usize) -> Option<u8>",
-                     self_fields=BITENC_FIELDS, params=[("i", "usize")], ret="Option<u8>",
-                     theorem="RbV.Thm.GenSrcBitEncOps.get_eq_model"),
-                dict(name="BitEnc::clear", lean="clear", header="pub fn clear(&mut self)",
-                     self_fields=BITENC_FIELDS, params=[], ret=None,
-                     theorem="RbV.Thm.GenSrcBitEncOps.clear_eq_model"),
-                dict(name="BitEnc::nr_blocks", lean="nrBlocks", header="pub fn nr_blocks(&self) -> usize",
-                     self_fields=BITENC_FIELDS, params=[], ret="usize",
-                     theorem="RbV.Thm.GenSrcBitEncOps.nrBlocks_eq_model"),
-                dict(name="BitEnc::nr_symbols", lean="nrSymbols", header="pub fn nr_symbols(&self) -> usize",
-                     self_fields=BITENC_FIELDS, params=[], ret="usize",
-                     theorem="RbV.Thm.GenSrcBitEncOps.nrSymbols_eq_model"),
-                dict(name="BitEnc::len", lean="len", header="pub fn len(&self) -> usize",
-                     self_fields=BITENC_FIELDS, params=[], ret="usize",
-                     theorem="RbV.Thm.GenSrcBitEncOps.nrSymbols_eq_model"),
-                dict(name="BitEnc::push_values", lean="pushValues",
-                     header="pub fn push_values(&mut self, mut n: usize, value: u8)",
-                     self_fields=BITENC_FIELDS, params=[("n", "usize"), ("value", "u8")], ret=None,
-                     locals={"value_block": "u32"}, loop_shadow_ok=True,
-                     theorem="RbV.Thm.GenSrcBitEncOps.pushValues_eq_model")])
-
-
-# (genbits) SmallInts<S, B>: the small and the big integer type are Lean type variables; `cast`, `S::max_value()`,
-# `size_of`, `<` on `S` are abstract parameters (the theorems instantiate them with the mirror model's range semantics);
-# `BTreeMap<usize, B>` is an association list (`Rs.mapInsert` / `Rs.mapGet`, RsSemBits.lean)
-SMALLINTS_ABS = {
-    "cast_bs": dict(lean="castBS", args=["B"], ret="Option<S>"),          # num_traits::cast::<B, S>
-    "cast_sb": dict(lean="castSB", args=["S"], ret="Option<B>"),          # num_traits::cast::<S, B>
-    "cast_zero": dict(lean="castZero", args=["i32"], ret="Option<S>"),    # num_traits::cast::<i32, S> (the literal 0)
-    "lt_s": dict(lean="ltS", args=["S", "S"], ret="bool"),                # `<` on S
-    "S::max_value": dict(lean="maxS", args=[], ret="S", is_value=True),
-    "size_of::<S>": dict(lean="sizeS", args=[], ret="usize", is_value=True),
-    "size_of::<B>": dict(lean="sizeB", args=[], ret="usize", is_value=True)}
-SMALLINTS_FIELDS = [("smallints", "Vec<S>"), ("bigints", "BTreeMap<usize, B>")]
-
-unit(name="SrcSmallInts", props="properties C18, C03", file="src/data_structures/smallints.rs",
-     imports=["RbV.Basic.RsSemBits"], generics={"S": "α", "B": "β"}, abstract_fns=SMALLINTS_ABS,
-     ops={"<:S": "ltS", ">:S": "flip:ltS", ">=:S": "not:ltS", "<=:S": "not:flip:ltS"},
-     self_calls={"real_value": dict(lean="SrcSmallInts.realValue", fields=["smallints", "bigints"], args=["usize", "S"],
-                                    ret="Option<B>", abs=True)},
-     functions=[dict(name="SmallInts::real_value", lean="realValue",
-                     header="fn real_value(&self, i: usize, v: S) -> Option<B>",
-                     self_fields=SMALLINTS_FIELDS, params=[("i", "usize"), ("v", "S")], ret="Option<B>",
-                     abs_alias={"cast": "cast_sb"}, theorem="RbV.Thm.GenSrcSmallInts.realValue_eq_model"),
-                dict(name="SmallInts::get", lean="get", header="pub fn get(&self, i: usize) -> Option<B>",
-                     self_fields=SMALLINTS_FIELDS, params=[("i", "usize")], ret="Option<B>",
-                     theorem="RbV.Thm.GenSrcSmallInts.get_eq_model"),
-                dict(name="SmallInts::push", lean="push", header="pub fn push(&mut self, v: B)",
-                     self_fields=SMALLINTS_FIELDS, params=[("v", "B")], ret=None,
-                     abs_alias={"cast": "cast_bs"}, theorem="RbV.Thm.GenSrcSmallInts.push_eq_model"),
-                dict(name="SmallInts::set", lean="set", header="pub fn set(&mut self, i: usize, v: B)",
-                     self_fields=SMALLINTS_FIELDS, params=[("i", "usize"), ("v", "B")], ret=None,
-                     abs_alias={"cast": "cast_bs"}, theorem="RbV.Thm.GenSrcSmallInts.set_eq_model"),
-                dict(name="SmallInts::from_elem", lean="fromElem", header="pub fn from_elem(v: S, n: usize) -> Self",
-                     params=[("v", "S"), ("n", "usize")], ret="(Vec<S>, BTreeMap<usize, B>)",
-                     struct_fields={"SmallInts": ["smallints", "bigints"]},
-                     struct_field_types={"SmallInts": dict(SMALLINTS_FIELDS)},
-                     abs_alias={"cast": "cast_zero"}, theorem="RbV.Thm.GenSrcSmallInts.fromElem_eq_model"),
-                dict(name="SmallInts::len", lean="len", header="pub fn len(&self) -> usize",
-                     self_fields=SMALLINTS_FIELDS, params=[], ret="usize",
-                     theorem="RbV.Thm.GenSrcSmallInts.len_eq_model")])
-
-
-# (genbits) rank/select.  `BitVec<u8>` and `SuperblockRank` are abstract types; the bit vector is observed through
-# `get_block` / `len` (bv crate, external: abstract functions whose contract is a hypothesis of the theorems),
-# `SuperblockRank` through its constructors and `Deref`.  `(bits.len() as f64 / 8.0).ceil() as usize` is the abstract
-# function `ceil_div8_f64` (contract ⌈x / 8⌉, exact below 2^53).
-RANKSELECT_ABS = {
-    "BitVec.get_block": dict(lean="getBlock", args=["BitVec", "usize"], ret="u8"),
-    "BitVec.len": dict(lean="bitsLen", args=["BitVec"], ret="u64"),
-    "BitVec.block_len": dict(lean="blockLen", args=["BitVec"], ret="usize"),
-    "ceil_div8_f64": dict(lean="ceilDiv8", args=["u64"], ret="usize"),
-    "SuperblockRank::First": dict(lean="sbFirst", args=["u64"], ret="SuperblockRank"),
-    "SuperblockRank::Some": dict(lean="sbSome", args=["u64"], ret="SuperblockRank"),
-    "deref:SuperblockRank": dict(lean="sbVal", args=["SuperblockRank"], ret="u64")}
-RANKSELECT_FIELDS = [("n", "usize"), ("bits", "BitVec"), ("superblocks_1", "Vec<SuperblockRank>"),
-                     ("superblocks_0", "Vec<SuperblockRank>"), ("s", "usize"), ("k", "usize")]
-
-unit(name="SrcRankSelect", props="property C17", file="src/data_structures/rank_select.rs",
-     imports=["RbV.Basic.RsSemBits"], generics={"BitVec": "β", "SuperblockRank": "σ"}, abstract_types=["BitVec"],
-     abstract_fns=RANKSELECT_ABS,
-     self_calls={"rank_1": dict(lean="SrcRankSelect.rank1", fields=[f for f, _ in RANKSELECT_FIELDS], args=["u64"],
-                                ret="Option<u64>", abs=True)},
-     functions=[dict(name="superblocks", lean="superblocks",
-                     header="fn superblocks(t: bool, n: usize, s: usize, bits: &BitVec<u8>) -> Vec<SuperblockRank>",
-                     params=[("t", "bool"), ("n", "usize"), ("s", "usize"), ("bits", "&BitVec<u8>")],
-                     ret="Vec<SuperblockRank>",
-                     locals={"superblocks": "Vec<SuperblockRank>", "last_rank": "Option<u64>", "i": "usize"},
-                     theorem="RbV.Thm.GenSrcRankSelect.superblocks_eq_model"),
-                dict(name="RankSelect::rank_1", lean="rank1", header="pub fn rank_1(&self, i: u64) -> Option<u64>",
-                     self_fields=RANKSELECT_FIELDS, params=[("i", "u64")], ret="Option<u64>", shadow_ok=True,
-                     theorem="RbV.Thm.GenSrcRankSelect.rank1_eq_model"),
-                dict(name="RankSelect::rank_0", lean="rank0", header="pub fn rank_0(&self, i: u64) -> Option<u64>",
-                     self_fields=RANKSELECT_FIELDS, params=[("i", "u64")], ret="Option<u64>",
-                     theorem="RbV.Thm.GenSrcRankSelect.rank0_eq_model")])
-
-
-# (genbits) wavelet matrix queries.  `RankSelect` is an abstract type whose `rank_0` / `rank_1` are abstract *monadic*
-# functions (they may panic; the composition theorem instantiates them with the translated `RankSelect::rank_0/1`);
-# the `const DNA2INT` table is a parameter (its value is extracted separately into Gen/Dna2Int.lean).
-WAVELET_FIELDS = [("width", "usize"), ("height", "usize"), ("zeros", "Vec<u64>"), ("levels", "Vec<RankSelect>")]
-
-unit(name="SrcWavelet", props="property C17", file="src/data_structures/wavelet_matrix.rs",
-     imports=["RbV.Basic.RsSemBits"], generics={"RankSelect": "ρ"},
-     abstract_fns={"RankSelect.rank_0": dict(lean="rank0", args=["RankSelect", "u64"], ret="Option<u64>", monadic=True),
-                   "RankSelect.rank_1": dict(lean="rank1", args=["RankSelect", "u64"], ret="Option<u64>", monadic=True)},
-     self_calls={"check_overflow": dict(lean="SrcWavelet.checkOverflow", fields=[f for f, _ in WAVELET_FIELDS],
-                                        args=["u64"], ret="bool", abs=True),
-                 "prank": dict(lean="SrcWavelet.prank", fields=[f for f, _ in WAVELET_FIELDS],
-                               args=["usize", "u64", "u8"], ret="u64", abs=True)},
-     functions=[dict(name="WaveletMatrix::check_overflow", lean="checkOverflow",
-                     header="fn check_overflow(&self, p: u64) -> bool",
-                     self_fields=WAVELET_FIELDS, params=[("p", "u64")], ret="bool",
-                     theorem="RbV.Thm.GenSrcWavelet.checkOverflow_eq_model"),
-                dict(name="WaveletMatrix::prank", lean="prank",
-                     header="fn prank(&self, level: usize, p: u64, val: u8) -> u64",
-                     self_fields=WAVELET_FIELDS, params=[("level", "usize"), ("p", "u64"), ("val", "u8")], ret="u64",
-                     theorem="RbV.Thm.GenSrcWavelet.prank_eq_model"),
-                dict(name="WaveletMatrix::rank", lean="rank", header="pub fn rank(&self, val: u8, p: u64) -> u64",
-                     self_fields=WAVELET_FIELDS, params=[("DNA2INT", "[u8; 128]"), ("val", "u8"), ("p", "u64")],
-                     ret="u64", locals={"spos": "u64"},
-                     theorem="RbV.Thm.GenSrcWavelet.rank_eq_model")])
+                     params=[("i", "usize")], ret="(usize, usize)", theorem="RbV.Thm.GenSrcBitEnc.addr_eq_model")])
 
 
 unit(name="SrcBwt", props="property C04", file="src/data_structures/bwt.rs",
@@ -3010,6 +1916,176 @@ unit(name="SrcPrescan", props="property C04", file="src/utils/mod.rs",
                      abstract_fns={"op": dict(lean="op", args=["T", "T"], ret="T")},
                      params=[("a", "&mut [T]"), ("neutral", "T")], ret=None,
                      theorem="RbV.Thm.GenSrcPrescan.prescan_eq_model")])
+
+
+# ---- dialect "cf" (tools/rs2lean_cf.py; builder genmisc): C20 / C19 / C07 -------------------------------------------------
+
+unit(name="SrcOrf", props="property C20", file="src/seq_analysis/orf.rs", dialect="cf",
+     aliases={"Orf": "(usize, usize, i8)"},
+     functions=[dict(name="Matches::next", lean="next", header="fn next(&mut self) -> Option<Orf>",
+                     # `self.seq: iter::Enumerate<T>` with `T::Item: Borrow<u8>`: the (index, symbol) pairs not yet consumed
+                     self_fields=[("finder.start_codons", "Vec<VecDeque<u8>>"), ("finder.stop_codons", "Vec<VecDeque<u8>>"),
+                                  ("finder.min_len", "usize"), ("state.start_pos", "[Vec<usize>; 3]"),
+                                  ("state.codon", "VecDeque<u8>"), ("state.found", "VecDeque<Orf>"),
+                                  ("seq", "Iter<(usize, u8)>")],
+                     params=[], ret="Option<Orf>", struct_fields={"Orf": ["start", "end", "offset"]},
+                     # the length test of the flush loop is a parameter: the property leaves frames of length
+                     # min_len .. min_len+2 free, the theorems hold for every test inside that freedom (seeded C20-H1)
+                     cond_holes={"for2": dict(lean="lenTest", args=[("index", "usize"), ("start_pos", "usize"),
+                                                                    ("self.finder.min_len", "usize")])},
+                     theorem="RbV.Thm.GenSrcOrf.next_eq_model")])
+
+
+unit(name="SrcGc", props="property C20", file="src/seq_analysis/gc.rs", dialect="cf",
+     generics={"f32": "F"},
+     # the `f32` division stays outside: `x as f32` and `/` on `f32` are abstract functions of the translated definition
+     abstract_fns={"as:usize:f32": dict(lean="toF32", args=["usize"], ret="f32"),
+                   "op:/:f32": dict(lean="fdiv", args=["f32", "f32"], ret="f32")},
+     functions=[dict(name="gcn_content", lean="gcnContent",
+                     header="fn gcn_content<C: Borrow<u8>, T: IntoIterator<Item = C>>(sequence: T, step: usize) -> f32",
+                     params=[("sequence", "&[u8]"), ("step", "usize")], ret="f32",
+                     theorem="RbV.Thm.GenSrcGc.gcnContent_eq_model")])
+
+
+ALPHA_STRUCTS = {"Alphabet": [("symbols", "BitSet")], "RankTransform": [("ranks", "VecMap<u8>")]}
+
+unit(name="SrcAlphabet", props="property C20", file="src/alphabets/mod.rs", dialect="cf", structs=ALPHA_STRUCTS,
+     # `bit_set::BitSet`, `vec_map::VecMap<u8>`: `Rs.BitSet`, `Rs.VecMap` of RsSem.lean (trusted meaning of the two crates)
+     functions=[dict(name="Alphabet::new", lean="alphabetNew",
+                     header="pub fn new<C, T>(symbols: T) -> Self where C: Borrow<u8>, T: IntoIterator<Item = C>,",
+                     params=[("symbols", "&[u8]")], ret="Alphabet", locals={"s": "BitSet"},
+                     theorem="RbV.Thm.GenSrcAlphabet.alphabetNew_eq_model"),
+                dict(name="Alphabet::insert", lean="alphabetInsert", header="pub fn insert(&mut self, a: u8)",
+                     self_fields=[("symbols", "BitSet")], params=[("a", "u8")], ret=None,
+                     theorem="RbV.Thm.GenSrcAlphabet.alphabetInsert_eq_model"),
+                dict(name="Alphabet::is_word", lean="isWord",
+                     header="pub fn is_word<C, T>(&self, text: T) -> bool where C: Borrow<u8>, T: IntoIterator<Item = C>,",
+                     self_fields=[("symbols", "BitSet")], params=[("text", "&[u8]")], ret="bool",
+                     theorem="RbV.Thm.GenSrcAlphabet.isWord_eq_model"),
+                dict(name="Alphabet::max_symbol", lean="maxSymbol", header="pub fn max_symbol(&self) -> Option<u8>",
+                     self_fields=[("symbols", "BitSet")], params=[], ret="Option<u8>",
+                     theorem="RbV.Thm.GenSrcAlphabet.maxSymbol_eq_model"),
+                dict(name="Alphabet::len", lean="len", header="pub fn len(&self) -> usize",
+                     self_fields=[("symbols", "BitSet")], params=[], ret="usize",
+                     theorem="RbV.Thm.GenSrcAlphabet.len_eq_model"),
+                dict(name="RankTransform::new", lean="rankNew", header="pub fn new(alphabet: &Alphabet) -> Self",
+                     params=[("alphabet", "&Alphabet")], ret="RankTransform", locals={"ranks": "VecMap<u8>"},
+                     theorem="RbV.Thm.GenSrcAlphabet.rankNew_eq_model"),
+                dict(name="RankTransform::get", lean="rankGet", header="pub fn get(&self, a: u8) -> u8",
+                     self_fields=[("ranks", "VecMap<u8>")], params=[("a", "u8")], ret="u8",
+                     theorem="RbV.Thm.GenSrcAlphabet.rankGet_eq_model"),
+                dict(name="RankTransform::transform", lean="transform",
+                     header="pub fn transform<C, T>(&self, text: T) -> Vec<u8> where C: Borrow<u8>, T: IntoIterator<Item = C>,",
+                     self_fields=[("ranks", "VecMap<u8>")], params=[("text", "&[u8]")], ret="Vec<u8>",
+                     theorem="RbV.Thm.GenSrcAlphabet.transform_eq_model")])
+
+
+# `RankTransform::get` (translated in SrcAlphabet) and `ranks.len()` are abstract here: `rankGet` may panic; the `f32`
+# computation `(len as f32).log2().ceil() as u32` stays outside (`ceilLog2`, tied to `bitsFor` by hypothesis)
+QGRAM_ABS = {"self.ranks.get": dict(lean="rankGet", args=["u8"], ret="u8", monadic=True),
+             "self.ranks.len": dict(lean="ranksLen", args=[], ret="usize", is_value=True),
+             "f32:log2:ceil": dict(lean="ceilLog2", args=["usize"], ret="u32")}
+QGRAM_STRUCTS = {"QGrams": [("text", "Iter<u8>"), ("q", "u32"), ("bits", "u32"), ("mask", "usize"), ("qgram", "usize")],
+                 "RevQGrams": [("text", "Iter<u8>"), ("q", "u32"), ("bits", "u32"), ("left_shift", "u32"), ("qgram", "usize")]}
+
+unit(name="SrcQGrams", props="property C19", file="src/alphabets/mod.rs", dialect="cf", abstract_fns=QGRAM_ABS,
+     structs=QGRAM_STRUCTS, struct_skip={"QGrams": ["ranks"], "RevQGrams": ["ranks"]},
+     functions=[dict(name="QGrams::qgram_push", lean="qgramPush", header="fn qgram_push(&mut self, a: u8)",
+                     self_fields=[("qgram", "usize"), ("bits", "u32"), ("mask", "usize")], params=[("a", "u8")], ret=None,
+                     theorem="RbV.Thm.GenSrcQGrams.qgramPush_eq_model"),
+                dict(name="QGrams::next", lean="next", header="fn next(&mut self) -> Option<usize>",
+                     after="impl<'a, C, T> Iterator for QGrams<'a, C, T>",
+                     self_fields=[("text", "Iter<u8>"), ("bits", "u32"), ("mask", "usize"), ("qgram", "usize")],
+                     params=[], ret="Option<usize>",
+                     self_calls={"qgram_push": dict(lean="qgramPush", self_args=["self.qgram", "self.bits", "self.mask"],
+                                                    args=["u8"], writes=["self.qgram"], ret=None)},
+                     theorem="RbV.Thm.GenSrcQGrams.next_eq_model"),
+                dict(name="RankTransform::qgrams", lean="qgrams",
+                     header="pub fn qgrams<C, T>(&self, q: u32, text: T) -> QGrams<'_, C, T::IntoIter> where C: Borrow<u8>, T: IntoIterator<Item = C>,",
+                     params=[("q", "u32"), ("text", "&[u8]")], ret="QGrams",
+                     struct_calls={"QGrams.next": dict(lean="next", fields_in=["text", "bits", "mask", "qgram"], args=[],
+                                                       writes=["text", "qgram"], ret="Option<usize>")},
+                     theorem="RbV.Thm.GenSrcQGrams.qgrams_eq_model"),
+                dict(name="RevQGrams::qgram_push_rev", lean="qgramPushRev", header="fn qgram_push_rev(&mut self, a: u8)",
+                     self_fields=[("qgram", "usize"), ("bits", "u32"), ("left_shift", "u32")], params=[("a", "u8")], ret=None,
+                     theorem="RbV.Thm.GenSrcQGrams.qgramPushRev_eq_model"),
+                dict(name="RevQGrams::next", lean="nextRev", header="fn next(&mut self) -> Option<usize>",
+                     after="impl<'a, C, T> Iterator for RevQGrams<'a, C, T>",
+                     self_fields=[("text", "Iter<u8>"), ("bits", "u32"), ("left_shift", "u32"), ("qgram", "usize")],
+                     params=[], ret="Option<usize>",
+                     self_calls={"qgram_push_rev": dict(lean="qgramPushRev",
+                                                        self_args=["self.qgram", "self.bits", "self.left_shift"],
+                                                        args=["u8"], writes=["self.qgram"], ret=None)},
+                     theorem="RbV.Thm.GenSrcQGrams.nextRev_eq_model"),
+                dict(name="RankTransform::rev_qgrams", lean="revQgrams",
+                     header="pub fn rev_qgrams<C, IT, T>(&self, q: u32, text: IT) -> RevQGrams<'_, C, T> where C: Borrow<u8>, T: DoubleEndedIterator<Item = C>, IT: IntoIterator<IntoIter = T>,",
+                     params=[("q", "u32"), ("text", "&[u8]")], ret="RevQGrams",
+                     struct_calls={"RevQGrams.next": dict(lean="nextRev", fields_in=["text", "bits", "left_shift", "qgram"],
+                                                          args=[], writes=["text", "qgram"], ret="Option<usize>")},
+                     theorem="RbV.Thm.GenSrcQGrams.revQgrams_eq_model")])
+
+
+unit(name="SrcQGramIndex", props="property C19", file="src/data_structures/qgram_index.rs", dialect="cf",
+     # `T` (the text), `Alphabet`, `RankTransform` are abstract types here; what `with_max_count` needs from them are the
+     # abstract functions below: the rank transform of the alphabet, its bit width, the q-gram codes of the text
+     # (`ranks.qgrams(q, text)`: constructor + iteration, translated and proved in SrcQGrams) and `utils::prescan` with
+     # `|a, b| a + b` (translated and proved for C04; here `prescanAdd`, which may panic on overflow)
+     generics={"T": "τ", "Alphabet": "αβ", "RankTransform": "ρ"},
+     structs={"QGramIndex": [("q", "u32"), ("address", "Vec<usize>"), ("pos", "Vec<usize>"), ("ranks", "RankTransform")]},
+     abstract_fns={"RankTransform::new": dict(lean="rankNew", args=["Alphabet"], ret="RankTransform"),
+                   "ranks.get_width": dict(lean="getWidth", args=[], ret="usize"),
+                   "ranks.qgrams": dict(lean="qgramsOf", args=["u32", "T"], ret="Iter<usize>")},
+     functions=[dict(name="QGramIndex::with_max_count", lean="withMaxCount",
+                     header="pub fn with_max_count<'a, T, I>(q: u32, text: T, alphabet: &Alphabet, max_count: usize) -> Self "
+                            "where I: Iterator<Item = &'a u8> + ExactSizeIterator + Clone, "
+                            "T: IntoIterator<Item = &'a u8, IntoIter = I> + Sized,",
+                     params=[("q", "u32"), ("text", "T"), ("alphabet", "&Alphabet"), ("max_count", "usize")],
+                     ret="QGramIndex", locals={"address": "Vec<usize>", "pos": "Vec<usize>", "offset": "Vec<usize>"},
+                     mut_calls={"utils::prescan": dict(lean="prescanAdd", args=["&mut Vec<usize>", "usize", "closure:|a,b|a+b"],
+                                                       ret="Vec<usize>")},
+                     theorem="RbV.Thm.GenSrcQGramIndex.withMaxCount_eq_model"),
+                dict(name="QGramIndex::qgram_matches", lean="qgramMatches",
+                     header="pub fn qgram_matches(&self, qgram: usize) -> &[usize]",
+                     self_fields=[("address", "Vec<usize>"), ("pos", "Vec<usize>")], params=[("qgram", "usize")],
+                     ret="&[usize]", theorem="RbV.Thm.GenSrcQGramIndex.qgramMatches_eq_model")])
+
+
+# `N: Ord + Clone` is read at `Int` (what the harness drives the tree with; any total order would do), `D` stays generic
+IIT_STRUCTS = {"Interval": [("start", "N"), ("end", "N")],
+               "InternalEntry": [("data", "D"), ("interval", "Interval"), ("max", "N")]}
+
+unit(name="SrcIit", props="property C07", file="src/data_structures/interval_tree/array_backed_interval_tree.rs",
+     dialect="cf", generics={"D": "δ"}, ordered_instances={"N": "Int"}, structs=IIT_STRUCTS,
+     abstract_fns={"max3": dict(lean="max3", args=["N", "N", "N"], ret="N")},
+     functions=[dict(name="ArrayBackedIntervalTree::index_core", lean="indexCore", header="fn index_core(&mut self)",
+                     self_fields=[("entries", "Vec<InternalEntry>"), ("max_level", "usize")], params=[], ret=None,
+                     locals={"last_i": "usize", "k": "usize", "x": "usize", "i0": "usize", "step": "usize"},
+                     # `(1 << k) <= n` fails after at most 64 rounds (a shift by 64 would panic first)
+                     fuel=["65"], theorem="RbV.Thm.GenSrcIit.indexCore_eq_model"),
+                dict(name="ArrayBackedIntervalTree::index", lean="index", header="pub fn index(&mut self)",
+                     self_fields=[("entries", "Vec<InternalEntry>"), ("max_level", "usize"), ("indexed", "bool")],
+                     params=[], ret=None,
+                     # the sort call is the abstract function `sortByStart`; its contract in the theorems is "a permutation
+                     # sorted by start" — met by a stable or unstable sort by `start` or by `(start, end)` (seeded change
+                     # C07-H2), so all of these texts are read as `sortByStart`; `index_core` is the translated sibling
+                     abs_methods={"self.entries": dict(lean="sortByStart", ty="Vec<InternalEntry>", alts=[
+                         ("sort_by_key", "|e| e.interval.start"), ("sort_unstable_by_key", "|e| e.interval.start"),
+                         ("sort_by_key", "|e| (e.interval.start, e.interval.end)"),
+                         ("sort_unstable_by_key", "|e| (e.interval.start, e.interval.end)")])},
+                     self_calls={"index_core": dict(lean="indexCore", self_args=["self.entries", "self.max_level"], args=[],
+                                                    writes=["self.entries", "self.max_level"], ret=None, abs=["max3"])},
+                     theorem="RbV.Thm.GenSrcIit.index_eq_model"),
+                dict(name="ArrayBackedIntervalTree::find_into", lean="findInto",
+                     header="pub fn find_into<'b, 'a: 'b, I: Into<Interval<N>>>(&'a self, interval: I, "
+                            "results: &'b mut Vec<Entry<'a, N, D>>,)",
+                     structs={"Entry": [("interval", "Interval"), ("data", "D")],
+                              "StackCell": [("k", "usize"), ("x", "usize"), ("w", "bool")]},
+                     zero_ctors=["StackCell::empty"],
+                     self_fields=[("entries", "Vec<InternalEntry>"), ("max_level", "usize"), ("indexed", "bool")],
+                     params=[("interval", "Interval"), ("results", "&mut Vec<Entry>")], ret=None,
+                     locals={"t": "usize", "stack": "[StackCell; 64]"},
+                     # every round removes at least one unit of the weight 3^(k+1) / 3^k + 1 of the stack cells
+                     fuel=["3 ^ (max_level + 2)"], theorem="RbV.Thm.GenSrcIit.findInto_eq_model")])
 
 
 # ================================================================================================== self-test
@@ -3075,7 +2151,7 @@ SELFTEST_UNIT = dict(
 # (statement text placed in a function `fn f(v: &[u8], n: usize) -> usize { … }`, substring expected in the refusal)
 SELFTEST_REFUSED = [
     ("loop { break; } n", "`loop`"),
-    ("match n { 0 => 1, _ => 2 }", "`match`|pattern starting with"),
+    ("match n { 0 => 1, _ => 2 }", "`match`"),
     ("let c = |a: usize| a + 1; c(n)", "closure"),
     ("let q = 3; n + q", "cannot be read off the text"),
     ("for i in 0..n { if v[i] == 0 { return i; } } n", "`return` is only translated"),
@@ -3089,7 +2165,7 @@ SELFTEST_REFUSED = [
     ("unsafe { n }", "`unsafe`"),
     ("let t = (n, n); t.0", "tuple field access"),
     ("n.pow(2)", "method `.pow"),
-    ("let mut n2 = n; { let n2 = 1usize; } n2", "block expression|unexpected|shadows a variable"),
+    ("let mut n2 = n; { let n2 = 1usize; } n2", "block expression|unexpected"),
 ]
 
 
@@ -3147,6 +2223,8 @@ def selftest(with_lean):
                 if not re.search(expect, str(r)):
                     print("selftest: refused for another reason: %s: %s" % (body, r))
                     ok = False
+        import rs2lean_cf                      # dialect "cf": its own snippets
+        ok = rs2lean_cf.selftest(with_lean, tmp) and ok
     finally:
         shutil.rmtree(tmp, ignore_errors=True)
     print("selftest: " + ("ok" if ok else "FAILED"))
